@@ -233,7 +233,7 @@ func (x *Exprer) compute(v ssa.Value) *Expr {
 		return x.cell(v)
 	case *ssa.FieldAddr:
 		st := derefStruct(v.X.Type())
-		return mk("field", st.Field(v.Field).Name(), v, x.E(v.X))
+		return x.mkField(st.Field(v.Field).Name(), v, x.E(v.X))
 	case *ssa.Field:
 		if ld, ok := v.X.(*ssa.UnOp); ok && ld.Op == token.MUL {
 			if al, ok := ld.X.(*ssa.Alloc); ok {
@@ -243,7 +243,7 @@ func (x *Exprer) compute(v ssa.Value) *Expr {
 			}
 		}
 		st := derefStruct(v.X.Type())
-		return mk("field", st.Field(v.Field).Name(), v, x.E(v.X))
+		return x.mkField(st.Field(v.Field).Name(), v, x.E(v.X))
 	case *ssa.IndexAddr:
 		return mk("index", "", v, x.E(v.X), x.E(v.Index))
 	case *ssa.Index:
@@ -424,6 +424,61 @@ func ifaceName(t types.Type) string {
 		return pk + "." + nt.Obj().Name()
 	}
 	return typeStr(t)
+}
+
+// mkField builds base.name, projecting through literals and through in-repo pure constructors
+// (a function whose only return is a struct literal): NewTokenPair(a, d, …).Denoms  ⇒  d.
+func (x *Exprer) mkField(name string, v ssa.Value, base *Expr) *Expr {
+	if base.Op == "lit" {
+		for _, kv := range base.Args {
+			if kv.Op == "kv" && kv.Name == name {
+				return kv.Args[0]
+			}
+		}
+	}
+	if base.Op == "call" {
+		if cv, ok := base.Val.(*ssa.Call); ok {
+			if fn := x.P.resolveCallee(&cv.Call); fn != nil && inTeleport(fn) && len(fn.Blocks) == 1 {
+				if rets := x.P.RetExprs(fn, 0); len(rets) == 1 && rets[0].Op == "lit" {
+					for _, kv := range rets[0].Args {
+						if kv.Op == "kv" && kv.Name == name {
+							return substParams(kv.Args[0], base.Args)
+						}
+					}
+				}
+			}
+		}
+	}
+	return mk("field", name, v, base)
+}
+
+// substParams rewrites $i parameters of a callee expression with the caller's argument expressions.
+func substParams(e *Expr, args []*Expr) *Expr {
+	if e == nil {
+		return nil
+	}
+	if e.Op == "param" {
+		var i int
+		if _, err := fmt.Sscanf(e.Name, "$%d", &i); err == nil && i < len(args) {
+			return args[i]
+		}
+		return e
+	}
+	if len(e.Args) == 0 {
+		return e
+	}
+	na := make([]*Expr, len(e.Args))
+	changed := false
+	for i, a := range e.Args {
+		na[i] = substParams(a, args)
+		if na[i] != a {
+			changed = true
+		}
+	}
+	if !changed {
+		return e
+	}
+	return &Expr{Op: e.Op, Name: e.Name, Args: na, Val: e.Val}
 }
 
 // fieldOfAlloc projects a field out of a local struct cell that is only ever populated by field stores
@@ -614,6 +669,18 @@ func (x *Exprer) arrayList(al *ssa.Alloc) *Expr {
 	if refs == nil {
 		return nil
 	}
+	nIdx := 0
+	for _, r := range *refs {
+		if st, ok := r.(*ssa.Store); ok && st.Addr == ssa.Value(al) {
+			return nil // whole-array store: not an element-wise literal
+		}
+		if _, ok := r.(*ssa.IndexAddr); ok {
+			nIdx++
+		}
+	}
+	if nIdx == 0 && n > 0 {
+		return nil
+	}
 	for _, r := range *refs {
 		ia, ok := r.(*ssa.IndexAddr)
 		if !ok {
@@ -624,14 +691,30 @@ func (x *Exprer) arrayList(al *ssa.Alloc) *Expr {
 			return nil
 		}
 		i := int(c.Int64())
+		if i < 0 || i >= n {
+			continue
+		}
+		fieldStores := map[int][]ssa.Value{}
 		if rr := ia.Referrers(); rr != nil {
 			for _, u := range *rr {
-				if st, ok := u.(*ssa.Store); ok && st.Addr == ia {
-					if i >= 0 && i < n {
-						elems[i] = x.E(st.Val)
+				switch u := u.(type) {
+				case *ssa.Store:
+					if u.Addr == ia {
+						elems[i] = x.E(u.Val)
+					}
+				case *ssa.FieldAddr:
+					if fr := u.Referrers(); fr != nil {
+						for _, w := range *fr {
+							if st, ok := w.(*ssa.Store); ok && st.Addr == u {
+								fieldStores[u.Field] = append(fieldStores[u.Field], st.Val)
+							}
+						}
 					}
 				}
 			}
+		}
+		if elems[i] == nil && len(fieldStores) > 0 {
+			elems[i] = x.fieldLit(typeStr(arr.Elem()), arr.Elem(), fieldStores, nil)
 		}
 	}
 	for i := range elems {
